@@ -12,11 +12,11 @@ CLAIMED = {
    "deterministic simulation: seeded history search against an executable reference model, transport faults on include targets", "4/C05"),
  "C06": ("exploration",
    "Seeded search over (schema, text, cut layout) scenarios on the simulated transport with decoy resources at every wrongly-resolved URL; differential oracle inlined-vs-cut plus recorded open history; torn-cut (refused by the fragment's own parser) and missing-fragment faults must reject; variants for redefinition across boundaries, includes through a %define, %import inside fragments, deep chains, big multi-byte fragments, odd first characters; real-file stratum with cwd decoys, symlinks and a top resource that exists only in memory.",
-   "Trusts the cutter (balanced ranges) and stdlib urljoin for computing expected fragment URLs.",
+   "Trusts the cutter (balanced ranges) and stdlib urljoin for computing expected fragment URLs. Include chains deeper than the interpreter's stack allows (about 197 levels) are the recorded finding KF-4.",
    "deterministic simulation: multi-resource I/O on a simulated transport with decoys, differential oracle + I/O history check, torn/lost fragment faults", "4/C06"),
  "C07": ("exploration",
    "Seeded stored-content corruption (truncate, drop/dup/swap line, flip to every metacharacter, token insert/delete, a line copied into another resource, a name %define-d in two resources), all 512 include graphs over three files x 4 variants enumerated with a textual-inclusion oracle, missing fragments, open errors and corrupted override specifiers against real loaders (memory and real-file backends, real http.client); read failures after a successful open, very long lines, application datatypes rejecting with every shape of ValueError; oracle: only ConfigurationError-family exceptions escape; validator.main status/stderr agree with direct loads.",
-   "Schemas restricted to datatypes rejecting with ValueError; transport errors after a successful open and file objects that do not yield text are out of scope of the statement.",
+   "Datatypes reject with ValueError; as an injected fault an application datatype raises an error of its own class, which must leave the load unchanged; transport errors after a successful open and file objects that do not yield text are out of scope of the statement.",
    "deterministic simulation: seeded storage-corruption and open-fault injection, exception-class oracle", "4/C07"),
  "C08": ("fault_enumeration",
    "For every sampled scenario (schema, accepted text, 1..4 resources, entry mode) every applicable (resource, position, typed fault kind) injection is executed and the raised error must carry the culprit's line and URL. Entry by URL, file object (with / without URL), reused loader (every injection follows earlier rejected loads) or with an override. Exhaustive over the failure points of each scenario, sampled over scenarios.",
